@@ -292,13 +292,22 @@ func c25(repo string, out *fg.Out) error {
 	}
 	for _, s := range []string{
 		"partial, statErr := p.cfg.Backend.StatFile(statCtx, entry.Path)",
-		"if statErr != nil || partial <= 0 || partial >= entry.SizeBytes { return 0, nil }",
 		"hashErr := p.cfg.Backend.ReadToAt(hashCtx, entry.Path, h, 0)",
 		"return partial, h",
 	} {
 		if !contains(pul, tr.Body, s) {
 			return fmt.Errorf("tryResumeFromPartial: missing %q", s)
 		}
+	}
+	// resume boundary: a local file of length >= SizeBytes must not become a resume point
+	resumeFullPart := false
+	switch {
+	case contains(pul, tr.Body, "if statErr != nil || partial <= 0 || partial >= entry.SizeBytes { return 0, nil }"):
+		resumeFullPart = false
+	case contains(pul, tr.Body, "if statErr != nil || partial <= 0 || partial > entry.SizeBytes { return 0, nil }"):
+		resumeFullPart = true
+	default:
+		return fmt.Errorf("tryResumeFromPartial: unrecognised resume guard (want `statErr != nil || partial <= 0 || partial >= entry.SizeBytes`)")
 	}
 	wt, err := need(pul, "Puller", "writeFileTail")
 	if err != nil {
@@ -355,13 +364,14 @@ func c25(repo string, out *fg.Out) error {
 	fmt.Fprintf(w, "import Arc.Model.C25\n")
 	fmt.Fprintf(w, "namespace Arc.Generated.C25\n")
 	fmt.Fprintf(w, "/-- read off LocalBackend.StatFile / LocalBackend.Delete / Puller.processEntry of the current source -/\n")
-	fmt.Fprintf(w, "def facts : Arc.C25.Facts :=\n  { statPartFallback := %s, deleteRemovesPart := %s, presenceNeedsFinal := %s,\n    promoteAfterVerdict := %s }\n",
-		b(statPartFallback), b(deleteRemovesPart), b(presenceNeedsFinal), b(promoteAfterVerdict))
+	fmt.Fprintf(w, "def facts : Arc.C25.Facts :=\n  { statPartFallback := %s, deleteRemovesPart := %s, presenceNeedsFinal := %s,\n    promoteAfterVerdict := %s, resumeFullPart := %s }\n",
+		b(statPartFallback), b(deleteRemovesPart), b(presenceNeedsFinal), b(promoteAfterVerdict), b(resumeFullPart))
 	fmt.Fprintf(w, "end Arc.Generated.C25\n")
 	out.JSON["stat_part_fallback"] = statPartFallback
 	out.JSON["delete_removes_part"] = deleteRemovesPart
 	out.JSON["presence_needs_final"] = presenceNeedsFinal
 	out.JSON["promote_after_verdict"] = promoteAfterVerdict
+	out.JSON["resume_full_part"] = resumeFullPart
 	out.JSON["presence_condition"] = cond
 	return nil
 }
